@@ -113,6 +113,9 @@ class MutexObj(Opaque):
         self.oid = oid
         self.cell = Cell(data)
 
+    def on_drop(self, it, me):
+        it.drop_value(self.cell.v)
+
     def __repr__(self):
         return '<Mutex %s>' % self.oid
 
